@@ -16,6 +16,11 @@ import DadiVerif.Model.Godambe
    c19.chi2 <weights> <0|1 scalar> <xs> <cdf rows>  -> ok s <v> | ok a <list> | err <kind>
    c19.ll <model mask bits> <data mask bits> <model> <data> <log model> <gammaln(data+1)>  -> ok <ll> <number of entries summed>
    c19.bootmask <mask bits of a bootstrap as given>   -> ok <mask bits as its likelihood sees it>
+   c19.bootmasknd <shape> <flat mask bits as given>   -> ok <flat mask bits as seen> <flat index of [0,…,0]> <flat index of [n1,…,nP]>
+   c19.cacheadj <impl|fresh|inplace|inplaceskip> <obj:id:k:adj;…> -> ok <obj.k*scale,…> <final table: obj.k*scale,…>   (fs used by every evaluation, what the cache holds afterwards)
+   c19.llnd <shape> <data folded 0|1> <model folded 0|1> <model mask bits> <data mask bits> <model> <data> <log of the model as seen> <gammaln(data+1)>
+                                             -> ok <ll> <entries summed> <model values as seen> <model mask as seen>
+   c19.pairs <weights>                       -> ok <dof:weight;…>    (generated pairing of sum_chi2_ppf)
    Errors: `err zerostep` (a step is 0: the code divides by it), `err shape`. -/
 namespace DadiVerif.Driver.Godambe
 open DadiVerif DadiVerif.Proto DadiVerif.Godambe
@@ -56,10 +61,18 @@ def parseCacheOp (s : String) : Option (Nat × Nat × Nat) :=
   | [o, i, k] => do some ((← o.toNat?), (← i.toNat?), (← k.toNat?))
   | _ => none
 
+/-- `obj:id:k:adj` -/
+def parseCacheAdjOp (s : String) : Option (Nat × Nat × Nat × Rat) :=
+  match s.splitOn ":" with
+  | [o, i, k, a] => do some ((← o.toNat?), (← i.toNat?), (← k.toNat?), (← parseRat a))
+  | _ => none
+
+def showScaled (t : Nat × Nat × Rat) : String := s!"{t.1}.{t.2.1}*{showRat t.2.2}"
+
 def handle (toks : List String) : Option String :=
   match toks with
   | ["c19.cfg"] =>
-      some s!"ok getHessShapeOk={Gen.Godambe.getHessShapeOk} getGradShapeOk={Gen.Godambe.getGradShapeOk} twoPt={Gen.Godambe.twoPtDerivTest} cacheModule={Gen.Godambe.cacheIsModuleLevel} holdsRef={Gen.Godambe.cacheKeyHoldsRef} keyComplete={Gen.Godambe.cacheKeyComplete} cachePattern={Gen.Godambe.cachePatternOk} godambeShape={flagsOk Gen.Godambe.godambeShape} statsShape={flagsOk Gen.Godambe.statsShape} multinom={flagsOk Gen.Godambe.multinomAug} chi2Scalar={optBool Gen.Godambe.chi2FlagWhenScalar} chi2Array={optBool Gen.Godambe.chi2FlagWhenArray} chi2Shape={Gen.Godambe.chi2ShapeOk} llMaskModel={Gen.Godambe.llMaskModel} llMaskLogDomain={Gen.Godambe.llMaskModelLogDomain} llMaskData={Gen.Godambe.llMaskData} llShape={Gen.Godambe.llShapeOk} bootMaskKept={Gen.Godambe.bootMaskKept}"
+      some s!"ok getHessShapeOk={Gen.Godambe.getHessShapeOk} getGradShapeOk={Gen.Godambe.getGradShapeOk} twoPt={Gen.Godambe.twoPtDerivTest} cacheModule={Gen.Godambe.cacheIsModuleLevel} holdsRef={Gen.Godambe.cacheKeyHoldsRef} keyComplete={Gen.Godambe.cacheKeyComplete} cachePattern={Gen.Godambe.cachePatternOk} godambeShape={flagsOk Gen.Godambe.godambeShape} statsShape={flagsOk Gen.Godambe.statsShape} multinom={flagsOk Gen.Godambe.multinomAug} chi2Scalar={optBool Gen.Godambe.chi2FlagWhenScalar} chi2Array={optBool Gen.Godambe.chi2FlagWhenArray} chi2Shape={Gen.Godambe.chi2ShapeOk} llMaskModel={Gen.Godambe.llMaskModel} llMaskLogDomain={Gen.Godambe.llMaskModelLogDomain} llMaskData={Gen.Godambe.llMaskData} llShape={Gen.Godambe.llShapeOk} bootMaskKept={Gen.Godambe.bootMaskKept} fsFresh={Gen.Godambe.fsFreshProduct} fsSkipsUnit={Gen.Godambe.fsSkipsUnitAdjust} llFoldsModel={Gen.Godambe.llFoldsModel}"
   | ["c19.hess", poly, p0, e] => do
       let ms ← parsePoly poly; let p ← parseList p0; let e ← parseRat e
       let n := p.length
@@ -141,6 +154,43 @@ def handle (toks : List String) : Option String :=
         | .ok (.scalar v) => some ("ok s " ++ showRat v)
         | .ok (.array vs) => some ("ok a " ++ showList vs)
         | .error e => some ("err " ++ e)
+  | ["c19.pairs", w] => do
+      let w ← parseList w
+      let ps := Gen.Godambe.chi2Pairs w
+      some ("ok " ++ (if ps.isEmpty then "-" else ";".intercalate (ps.map fun p => s!"{p.1}:{showRat p.2}")))
+  | ["c19.cacheadj", mode, ops] => do
+      let ops ← if ops = "-" then some [] else (ops.splitOn ";").mapM parseCacheAdjOp
+      let ident : Nat → Nat := fun o => match ops.find? (fun t => t.1 == o) with
+        | some t => t.2.1
+        | none => 0
+      let calls : List (Nat × Nat × Rat) := ops.map fun t => (t.1, t.2.2.1, t.2.2.2)
+      let sem : Nat → Nat → Nat × Nat × Rat := fun o k => (o, k, 1)
+      let smul : Rat → Nat × Nat × Rat → Nat × Nat × Rat := fun a v => (v.1, v.2.1, a * v.2.2)
+      let res ← match mode with
+        | "impl" => some (runCacheAdj smul (implKey ident) sem [] calls)
+        | "fresh" => some (runCacheAdjWith true false smul (implKey ident) sem [] calls)
+        | "inplace" => some (runCacheAdjWith false false smul (implKey ident) sem [] calls)
+        | "inplaceskip" => some (runCacheAdjWith false true smul (implKey ident) sem [] calls)
+        | _ => none
+      let used := res.2.map showScaled
+      let tab := res.1.reverse.map fun e => showScaled e.2
+      some s!"ok {if used.isEmpty then "-" else ",".intercalate used} {if tab.isEmpty then "-" else ",".intercalate tab}"
+  | ["c19.bootmasknd", shape, b] => do
+      let shape ← parseNatList shape; let b ← parseBits b
+      if shape.isEmpty || shape.any (· == 0) || b.length != shape.foldl (· * ·) 1 then some "err shape"
+      else some s!"ok {showBits (bootSeenMask b)} {flatIdx shape (shape.map fun _ => 0)} {flatIdx shape (shape.map (· - 1))}"
+  | ["c19.llnd", shape, df, mf, mb, db, m, d, lm, lg] => do
+      let shape ← parseNatList shape; let df ← parseBool df; let mf ← parseBool mf
+      let mb ← parseBits mb; let db ← parseBits db
+      let m ← parseList m; let d ← parseList d; let lm ← parseList lm; let lg ← parseList lg
+      let n := m.length
+      if shape.isEmpty || shape.any (· == 0) || n != shape.foldl (· * ·) 1 || mb.length != n || db.length != n || d.length != n
+          || lm.length != n || lg.length != n then some "err shape"
+      else if mf && !df then some "err ValueError:folding"      -- Spectrum arithmetic between a folded model and unfolded data is refused
+      else
+        let seen := llModelSeen shape df mf m mb
+        let cells := llCellsND shape df mf m mb db d lm lg
+        some s!"ok {showRat (llSum cells)} {llCount cells} {showList (seen.map Prod.fst)} {showBits (seen.map Prod.snd)}"
   | ["c19.bootmask", b] => do
       let b ← parseBits b
       some ("ok " ++ showBits (bootSeenMask b))
